@@ -239,7 +239,9 @@ pub fn unflatten(c: &mut HashMap<String, Map<String, Value>>, value: &Value) -> 
                             panic!("expecting_order_field_in_descriptor")
                         }
                     }
-                    None => panic!("unknown_descriptor_object"),
+                    // The descriptor has been deleted (e.g. by a concurrent update): treat it
+                    // like a reference to a deleted object
+                    None => Some(json!(null)),
                 }
             } else {
                 match c.remove(s) {
